@@ -3,8 +3,9 @@ Model of the tar header **reader**: `lib/tar/src/read_header.c` (`check_version`
 `read_header`), `record_to_memory.c`, `read_sparse_map_old.c`, `read_sparse_map_new.c`.
 
 The input stream is the list of the bytes not yet consumed.  `sqfs_istream_read(fp, buf, n)` returns
-`min n remaining` bytes, `sqfs_istream_skip` skips `min n remaining` bytes and never fails on a memory
-stream, so a read is `take`/`drop` and "short read" is a length test.
+`min n remaining` bytes, so a read is `take`/`drop` and "short read" is a length test.  `sqfs_istream_skip(fp, n)`
+(lib/sqfs/src/io/stream_api.c, since /repo 1ef571c) fails with `SQFS_ERROR_OUT_OF_BOUNDS` when fewer than `n` bytes
+are left — `istreamSkip` — so an archive cut inside padding or inside skipped data is an error, not a clean end.
 -/
 import Sqfs.Model.TarPax
 import Sqfs.Model.TarHeader
@@ -28,10 +29,18 @@ def checkVersion (h : Bytes) : Option Version :=
   else if magic = magicOld ∧ version = versionOld then some .prePosix                     -- "ustar " " \0"
   else none
 
-/-- `record_to_memory`: `size` bytes and the padding to the next multiple of 512; `none` = short read -/
+/-- `sqfs_istream_skip(fp, n)`: `none` = `SQFS_ERROR_OUT_OF_BOUNDS` (the input ends before `n` bytes were skipped; fix 1ef571c);
+    skipping 0 bytes never touches the stream -/
+def istreamSkip (s : Bytes) (n : Nat) : Option Bytes :=
+  if s.length < n then none else some (s.drop n)
+
+/-- `record_to_memory`: `size` bytes and the padding to the next multiple of 512; `none` = short read, or the input ends
+    inside the padding (record_to_memory.c:32-38: `sqfs_istream_skip` fails) -/
 def recordToMemory (s : Bytes) (size : Nat) : Option (Bytes × Bytes) :=
   if s.length < size then none
-  else some (s.take size, (s.drop size).drop (padding size))
+  else match istreamSkip (s.drop size) (padding size) with
+    | none => none
+    | some s' => some (s.take size, s')
 
 /-! ### old GNU sparse map (`read_sparse_map_old.c`) -/
 
@@ -246,7 +255,12 @@ def readHeaderLoop (cfg : ReadCfg) : Nat → Bytes → Decoded → Nat → Bool 
             else if tf = 103 then                                  -- 'g' PAX global: skipped
               match sizeField with
               | none => .err
-              | some sz => readHeaderLoop cfg f (s.drop (sz + padding sz)) out mask false
+              | some sz =>
+                -- read_header.c:253-260: `pax_size += 512 - pax_size % 512` is a 64-bit addition; the skip fails when the
+                -- input ends inside the record or its padding
+                match istreamSkip s ((sz + padding sz) % U64) with
+                | none => .err
+                | some s' => readHeaderLoop cfg f s' out mask false
             else if tf = 120 then                                  -- 'x' PAX
               match sizeField with
               | none => .err
